@@ -132,12 +132,15 @@ def gen_lef(rng):
     out.append("END LIBRARY")
     return "\n".join(out) + "\n"
 
+def src_of(c):
+    return c.get("hex") or c.get("text") or json.dumps(c.get("layers") or c.get("cells"))
+
 def run_proc(cases):
     """one separate process over all cases (fresh RandomState)"""
     return harness("c20", cases)
 
 def run(chk, replay=None):
-    chk.proof_leg(["Order/SortedIter.vo"], "Properties/C20.v", ["Order/SortedIter.v"], "Properties.C20")
+    chk.proof_leg(["Order/SortedIter.vo", "Order/HashIterAllowed.vo", "Gen/HashIterGen.vo"], "Properties/C20.v", ["Order/SortedIter.v"], "Properties.C20")
     chk.assumptions += [
         "cross-process hash seeds are sampled (a fixed number of separate processes per run); the theorem, not the sampling, carries the claim for the modelled iteration sites",
         "conversions whose models never consult an order oracle are deterministic by construction; that they iterate no hash map is supported by the repeated runs only",
@@ -152,6 +155,24 @@ def run(chk, replay=None):
             cases.append({"src": "gds", "hex": gds_bytes(gen_gds(chk.rng)).hex(), "reps": 4 if quick else 8})
         for _ in range(40 if quick else 400):
             cases.append({"src": "lef", "text": gen_lef(chk.rng), "reps": 4 if quick else 8})
+        # raw libraries built directly: cell DAGs listed in shuffled order (parents before children too)
+        for _ in range(20 if quick else 200):
+            n = chk.rng.randrange(3, 10)
+            order = list(range(n)); chk.rng.shuffle(order)          # order[k] = rank of cell k; an instance goes to a lower rank
+            cells = []
+            for k in range(n):
+                lower = [j for j in range(n) if order[j] < order[k]]
+                insts = [chk.rng.choice(lower) for _ in range(chk.rng.randrange(0, 5))] if lower else []
+                cells.append({"name": "c%d" % k, "insts": insts})
+            cases.append({"src": "rawlib", "cells": cells, "reps": 4 if quick else 8})
+        cases.append({"src": "rawlib", "reps": 8, "cells": [{"name": "top", "insts": [1, 2, 3, 4, 5]}] + [{"name": "leaf%d" % k, "insts": []} for k in range(5)]})
+        # technology protobuf -> layer table (Layers::from_proto): 2..12 major layers in shuffled order, several purposes each
+        for _ in range(20 if quick else 200):
+            nums = chk.rng.sample(range(0, 200), chk.rng.randrange(2, 13))
+            ls = [[n, sub, chk.rng.choice([None, 0, 1, 2, 3, 4, 5])] for n in nums for sub in chk.rng.sample(range(0, 40), chk.rng.randrange(1, 4))]
+            chk.rng.shuffle(ls)
+            cases.append({"src": "tech", "layers": ls, "reps": 4 if quick else 8})
+        cases.append({"src": "tech", "layers": [[1, 0, 2], [2, 0, 2]], "reps": 8})
         # always: one port on two and three layers, obstructions on three layers
         cases.append({"src": "lef", "reps": 8, "text": "VERSION 5.8 ;\nMACRO m\n  SIZE 4 BY 4 ;\n  PIN a\n    PORT\n      LAYER met1 ;\n        RECT 0 0 1 1 ;\n      LAYER met2 ;\n        RECT 1 1 2 2 ;\n    END\n  END a\nEND m\nEND LIBRARY\n"})
         cases.append({"src": "lef", "reps": 8, "text": "VERSION 5.8 ;\nMACRO m\n  SIZE 4 BY 4 ;\n  PIN a\n    PORT\n      LAYER met1 ;\n        RECT 0 0 1 1 ;\n      LAYER met2 ;\n        RECT 1 1 2 2 ;\n      LAYER met3 ;\n        RECT 2 2 3 3 ;\n    END\n  END a\n  OBS\n    LAYER met1 ;\n      RECT 0 0 1 1 ;\n    LAYER met2 ;\n      RECT 0 0 1 1 ;\n    LAYER met3 ;\n      RECT 0 0 1 1 ;\n  END\nEND m\nEND LIBRARY\n"})
@@ -182,18 +203,18 @@ def run(chk, replay=None):
             if len(base) != len(r["stages"]):
                 bad.append((i, "chain", "different chain length between processes"))
     chk.cov["evaluations"] = len(cases) * nproc
-    chk.cov["distinct_nontrivial"] = len({(c.get("hex") or c.get("text")) for c in cases if len(c.get("hex") or c.get("text")) > 200})
+    chk.cov["distinct_nontrivial"] = len({src_of(c) for c in cases if len(src_of(c)) > 200})
     chk.cov["rule"] = ("generated hierarchical GDSII streams (own byte writer) and LEF texts with multi-layer ports/obstructions; each converted through the whole chain "
                        "%d times per process in %d separate processes; non-trivial = source longer than 200 characters; distinct by source" % (cases[0]["reps"], nproc))
     chk.cov["traces_validated_against_impl"] = len(cases) * nproc - len({b[0] for b in bad}) * nproc
-    chk.cov["input_distribution"] = {"gds_sources": sum(1 for c in cases if c["src"] == "gds"), "lef_sources": sum(1 for c in cases if c["src"] == "lef"),
+    chk.cov["input_distribution"] = {"gds_sources": sum(1 for c in cases if c["src"] == "gds"), "tech_sources": sum(1 for c in cases if c["src"] == "tech"), "rawlib_sources": sum(1 for c in cases if c["src"] == "rawlib"), "lef_sources": sum(1 for c in cases if c["src"] == "lef"),
                                      "stage_results": stage_counts, "stages_ending_in_error": errs, "processes": nproc}
-    chk.add_samples([{"src": c["src"], "source": (c.get("text") or c.get("hex"))[:400], "stages": runs[0][i].get("stages")} for i, c in list(enumerate(cases))[:: max(1, len(cases) // 3)]], k=3)
+    chk.add_samples([{"src": c["src"], "source": src_of(c)[:400], "stages": runs[0][i].get("stages")} for i, c in list(enumerate(cases))[:: max(1, len(cases) // 3)]], k=3)
     if bad:
         # group by stage; pick the smallest source per stage
         by_stage = {}
         for i, st, kind in bad:
-            by_stage.setdefault(st, []).append((len(cases[i].get("hex") or cases[i].get("text")), i, kind))
+            by_stage.setdefault(st, []).append((len(src_of(cases[i])), i, kind))
         for st, lst in sorted(by_stage.items()):
             lst.sort()
             _, i, kind = lst[0]
@@ -201,5 +222,5 @@ def run(chk, replay=None):
             if cls in known:
                 chk.known(known[cls], cases[i])
                 continue
-            chk.violation("conversion stage %s %s (%d cases); smallest source: %s" % (st, kind, len({x[1] for x in lst}), (cases[i].get("text") or cases[i].get("hex"))[:300]),
+            chk.violation("conversion stage %s %s (%d cases); smallest source: %s" % (st, kind, len({x[1] for x in lst}), src_of(cases[i])[:300]),
                           {"cases": [cases[i]], "stage": st, "kind": kind}, suffix="-" + st)
